@@ -186,6 +186,11 @@ func (s *DiscoveryStrategy) GetRoutableEndpoints(
 		"updated_healthy", len(updatedHealthy),
 		"original_healthy", len(healthyEndpoints))
 
+	// The caller has already narrowed healthyEndpoints to the candidates this request may use
+	// (provider scope, platform, capabilities). The refreshed view only tells which of them are
+	// still healthy; a fallback must not bring in endpoints from outside that set.
+	updatedHealthy = keepCandidates(updatedHealthy, healthyEndpoints)
+
 	if len(updatedHealthy) == 0 {
 		return nil, ports.NewRoutingDecision(
 				s.Name(),
@@ -226,4 +231,19 @@ func (s *DiscoveryStrategy) GetRoutableEndpoints(
 			constants.RoutingReasonAllHealthyAfterDiscovery,
 		), nil
 	}
+}
+
+// keepCandidates returns the endpoints of refreshed that are also among candidates
+func keepCandidates(refreshed, candidates []*domain.Endpoint) []*domain.Endpoint {
+	allowed := make(map[string]struct{}, len(candidates))
+	for _, endpoint := range candidates {
+		allowed[endpoint.URLString] = struct{}{}
+	}
+	kept := make([]*domain.Endpoint, 0, len(candidates))
+	for _, endpoint := range refreshed {
+		if _, ok := allowed[endpoint.URLString]; ok {
+			kept = append(kept, endpoint)
+		}
+	}
+	return kept
 }
